@@ -232,6 +232,7 @@ def run(ctx):
                     samples.append(observe(uv(d.value[0]) + uv(len(body)) + body, False))
     # ---- through the token lookup API
     napi = [0]
+    nreq = [0]
     for _ in range(60 if ctx.quick else 600):
         # every LRRP document id, those with a constant data table included (the caller sets no table: the document has none of its own)
         d = rng.choice(lrrp_ids)
@@ -251,8 +252,10 @@ def run(ctx):
                 napi[0] += 1
             form = napi[0] % 5
             if not is_req and form in (0, 1, 2):
-                # 0x39 is the 'result' element that carries a value (operation-error); by name the zero-length 0x37/0x38 come first
-                doc.parts.append(LRRP.get_token(0x39, bytes(rng.getrandbits(8) for _ in range(3)), {"result-code": codes[(napi[0] // 5) % len(codes)]}, is_request=False))
+                # the 'result' element that carries a value (operation-error, 0x39): asked for by id, and - every other time - by
+                # NAME with its content, where the content-less variants 0x37 / 0x38 of the same name come first in the table
+                doc.parts.append(LRRP.get_token(0x39 if form == 0 else "result", bytes(rng.getrandbits(8) for _ in range(3)),
+                                                {"result-code": codes[(napi[0] // 5) % len(codes)]}, is_request=False))
             elif not is_req and form == 3:
                 doc.parts.append(LRRP.get_token("result", b"", {0x23: 0}, is_request=False))
             elif not is_req:
@@ -260,6 +263,10 @@ def run(ctx):
                 doc.parts.append(LRRP.get_token("result", b"", {"result-code": codes[1:][(napi[0] // 5) % (len(codes) - 1)]}, is_request=False))
             if not is_req and rng.random() < 0.5:
                 doc.parts.append(LRRP.get_token("speed-hor", rng.randrange(300) + rng.randrange(128) / 128, {}, is_request=False))
+            if is_req and "request-hor-acc" in [t.name for t in cfg[MBXMLTokenType.ELEMENT_TOKEN].values()]:
+                # a name shared by an integer and a fractional variant: the value decides
+                nreq[0] += 1
+                doc.parts.append(LRRP.get_token("request-hor-acc", [5, 5.5, 0, 127.25, 300][nreq[0] % 5], {}, is_request=True))
             for t in doc.parts:
                 exp.append(struct([t.token_id, t.value, [(a.token_id, a.name, a.value) if hasattr(a, "token_id") else a for a in t.attributes]]))
             samples.append(observe(MBXML.as_bytes(doc), True, [exp]))
